@@ -9,10 +9,12 @@ import (
 	"verif/harness/algochk"
 	"verif/harness/ansichk"
 	"verif/harness/fieldchk"
+	"verif/harness/filterchk"
 	"verif/harness/vk"
 )
 
 var checks = map[string]func(prop, tier string) int{
+	"C01": filterchk.MainC01,
 	"C02": algochk.Main,
 	"C03": algochk.Main,
 	"C05": algochk.Main,
